@@ -12,6 +12,12 @@ import (
 	"gonum.org/v1/gonum/internal/verif/vlib"
 )
 
+// wUnit is the value of one weight unit: the weight functions of this file
+// return integers, the graphs carry w*wUnit. It is 1 for the integer
+// alphabet {0,1,2} and 1/4 for the dyadic alphabet of und-span-frac (all sums
+// stay exact in float64). Every case body sets it before building graphs.
+var wUnit = 1.0
+
 // ordWUndirected is the harness's deterministic weighted undirected graph.
 type ordWUndirected struct {
 	ordUndirected
@@ -26,13 +32,13 @@ func (o ordWUndirected) Weight(xid, yid int64) (float64, bool) {
 	if !o.hasArc(xid, yid) {
 		return math.Inf(1), false
 	}
-	return float64(o.w(o.idx[xid], o.idx[yid])), true
+	return float64(o.w(o.idx[xid], o.idx[yid])) * wUnit, true
 }
 func (o ordWUndirected) WeightedEdge(uid, vid int64) graph.WeightedEdge {
 	if !o.hasArc(uid, vid) {
 		return nil
 	}
-	return simple.WeightedEdge{F: simple.Node(uid), T: simple.Node(vid), W: float64(o.w(o.idx[uid], o.idx[vid]))}
+	return simple.WeightedEdge{F: simple.Node(uid), T: simple.Node(vid), W: float64(o.w(o.idx[uid], o.idx[vid])) * wUnit}
 }
 func (o ordWUndirected) WeightedEdgeBetween(xid, yid int64) graph.WeightedEdge {
 	return o.WeightedEdge(xid, yid)
@@ -75,7 +81,7 @@ func buildWeighted(s *gspec, idKind, variant int, w func(i, j int) int) (*built,
 		for i := 0; i < s.n; i++ {
 			for j := i + 1; j < s.n; j++ {
 				if s.has(i, j) {
-					e := simple.WeightedEdge{F: simple.Node(ids[i]), T: simple.Node(ids[j]), W: float64(w(i, j))}
+					e := simple.WeightedEdge{F: simple.Node(ids[i]), T: simple.Node(ids[j]), W: float64(w(i, j)) * wUnit}
 					if (i+j)%2 == 1 {
 						e.F, e.T = e.T, e.F
 					}
@@ -99,10 +105,10 @@ func buildWeighted(s *gspec, idKind, variant int, w func(i, j int) int) (*built,
 				wt := w(i, j)
 				if doubled(i, j, idKind) {
 					a := wt / 2
-					g.SetWeightedLine(g.NewWeightedLine(multi.Node(ids[i]), multi.Node(ids[j]), float64(a)))
-					g.SetWeightedLine(g.NewWeightedLine(multi.Node(ids[j]), multi.Node(ids[i]), float64(wt-a)))
+					g.SetWeightedLine(g.NewWeightedLine(multi.Node(ids[i]), multi.Node(ids[j]), float64(a)*wUnit))
+					g.SetWeightedLine(g.NewWeightedLine(multi.Node(ids[j]), multi.Node(ids[i]), float64(wt-a)*wUnit))
 				} else {
-					g.SetWeightedLine(g.NewWeightedLine(multi.Node(ids[i]), multi.Node(ids[j]), float64(wt)))
+					g.SetWeightedLine(g.NewWeightedLine(multi.Node(ids[i]), multi.Node(ids[j]), float64(wt)*wUnit))
 				}
 			}
 		}
@@ -112,8 +118,8 @@ func buildWeighted(s *gspec, idKind, variant int, w func(i, j int) int) (*built,
 }
 
 // checkForest validates dst as a minimum spanning forest of s under w.
-// want < 0 means "use the cycle property instead of the enumerated minimum".
-func checkForest(c *chk, what string, b *built, w func(i, j int) int, dst *simple.WeightedUndirectedGraph, ret float64, want int, comps int) {
+// exact: compare with the enumerated minimum want; otherwise use the cycle property.
+func checkForest(c *chk, what string, b *built, w func(i, j int) int, dst *simple.WeightedUndirectedGraph, ret float64, want int, exact bool, comps int) {
 	s := b.s
 	m, ok := b.maskOf(graph.NodesOf(dst.Nodes()))
 	if !ok || m != s.all() {
@@ -128,7 +134,7 @@ func checkForest(c *chk, what string, b *built, w func(i, j int) int, dst *simpl
 			c.failf("%s: dst edge %d-%d is not an edge of g", what, u, v)
 			return
 		}
-		if e.Weight() != float64(w(u, v)) {
+		if e.Weight() != float64(w(u, v))*wUnit {
 			c.failf("%s: dst edge %d-%d has weight %v, want %d", what, u, v, e.Weight(), w(u, v))
 			return
 		}
@@ -148,13 +154,13 @@ func checkForest(c *chk, what string, b *built, w func(i, j int) int, dst *simpl
 			}
 		}
 	}
-	if ret != float64(total) {
+	if ret != float64(total)*wUnit {
 		c.failf("%s: returned weight %v but dst edges sum to %d", what, ret, total)
 		return
 	}
-	if want >= 0 {
+	if exact {
 		if total != want {
-			c.failf("%s: forest weight %d, minimum over all spanning forests is %d", what, total, want)
+			c.failf("%s: forest weight %v, minimum over all spanning forests is %v", what, float64(total)*wUnit, float64(want)*wUnit)
 		}
 		return
 	}
@@ -184,16 +190,16 @@ func checkForest(c *chk, what string, b *built, w func(i, j int) int, dst *simpl
 	}
 }
 
-func spanChecks(c *chk, b *built, g path.UndirectedWeightLister, w func(i, j int) int, want, comps int) {
+func spanChecks(c *chk, b *built, g path.UndirectedWeightLister, w func(i, j int) int, want int, exact bool, comps int) {
 	catch(c, "Prim", func() {
 		dst := simple.NewWeightedUndirectedGraph(0, math.Inf(1))
 		ret := path.Prim(dst, g)
-		checkForest(c, "Prim", b, w, dst, ret, want, comps)
+		checkForest(c, "Prim", b, w, dst, ret, want, exact, comps)
 	})
 	catch(c, "Kruskal", func() {
 		dst := simple.NewWeightedUndirectedGraph(0, math.Inf(1))
 		ret := path.Kruskal(dst, g)
-		checkForest(c, "Kruskal", b, w, dst, ret, want, comps)
+		checkForest(c, "Kruskal", b, w, dst, ret, want, exact, comps)
 	})
 }
 
@@ -209,6 +215,7 @@ func genUndSpan(g *vlib.G) {
 	forUndirected(g, undMax(g), func(key string, s gspec) {
 		g.Case(key, func(t *vlib.T) {
 			s := s
+			wUnit = 1
 			m := s.edges()
 			comps := len(s.components())
 			// weight assignments: w-th assignment gives pair p the p-th base-3 digit.
@@ -243,7 +250,7 @@ func genUndSpan(g *vlib.G) {
 					digits /= 3
 				}
 				w := func(i, j int) int { return dig[pidx[i][j]] }
-				want := -1
+				want := 0
 				if exact {
 					want = s.minSpanningForestWeight(w)
 				}
@@ -254,10 +261,103 @@ func genUndSpan(g *vlib.G) {
 					for v := 0; v < nVariants; v++ {
 						b, wg := buildWeighted(&s, idk, v, w)
 						run(t, "und-span", key+fmt.Sprintf("|w=%d", wi), idk, v, func(c *chk) {
-							spanChecks(c, b, wg, w, want, comps)
+							spanChecks(c, b, wg, w, want, exact, comps)
 						})
 						evals++
 					}
+				}
+			}
+			t.Count("weighted_graphs", int64(evals))
+			if m >= 2 {
+				t.Nontrivial()
+			}
+			t.Outcome(sizeOutcome(&s, fmt.Sprintf("comps=%d", comps)))
+			t.Detail(s.String())
+		})
+	})
+}
+
+// fracAlphabet is the weight alphabet of und-span-frac in quarter units:
+// negative, zero and positive dyadic fractions k/4, so that differences below
+// 1 (which an integer-truncating comparison treats as ties), genuine ties,
+// zero and negative weights all occur; all sums are exact.
+var fracAlphabet = []int{-5, -2, 0, 1, 2, 3, 4, 5, 6, 7, 9, 12}
+
+// genUndSpanFrac: Prim and Kruskal with fractional, zero, negative and tied
+// weights. Graphs with at most 3 edges: every assignment from the alphabet;
+// larger graphs: a fixed LCG-drawn set of assignments per graph (plus the
+// ascending and descending ramps). Oracle as in und-span: minimum over all
+// spanning forests by subset enumeration.
+func genUndSpanFrac(g *vlib.G) {
+	perGraph := vlib.Pick(g, 6, 60)
+	forUndirected(g, 5, func(key string, s gspec) {
+		if s.edges() == 0 {
+			return
+		}
+		g.Case(key, func(t *vlib.T) {
+			s := s
+			wUnit = 0.25
+			defer func() { wUnit = 1 }()
+			m := s.edges()
+			comps := len(s.components())
+			var pidx [maxN][maxN]int
+			k := 0
+			for j := 1; j < s.n; j++ {
+				for i := 0; i < j; i++ {
+					if s.has(i, j) {
+						pidx[i][j], pidx[j][i] = k, k
+						k++
+					}
+				}
+			}
+			A := len(fracAlphabet)
+			var assigns [][]int
+			if m <= 3 {
+				total := 1
+				for i := 0; i < m; i++ {
+					total *= A
+				}
+				for wi := 0; wi < total; wi++ {
+					a := make([]int, m)
+					d := wi
+					for p := range a {
+						a[p] = fracAlphabet[d%A]
+						d /= A
+					}
+					assigns = append(assigns, a)
+				}
+			} else {
+				up, down := make([]int, m), make([]int, m)
+				for p := range up {
+					up[p] = fracAlphabet[p%A]
+					down[p] = fracAlphabet[A-1-p%A]
+				}
+				assigns = append(assigns, up, down)
+				r := &lcg{x: uint64(s.mask)*977 + uint64(s.n)}
+				for q := 0; q < perGraph; q++ {
+					a := make([]int, m)
+					// every other assignment draws from a narrow window of the alphabet (many near-ties).
+					lo, span := 0, A
+					if q%2 == 1 {
+						lo, span = 3, 5
+					}
+					for p := range a {
+						a[p] = fracAlphabet[lo+r.next(span)]
+					}
+					assigns = append(assigns, a)
+				}
+			}
+			evals := 0
+			for ai, a := range assigns {
+				w := func(i, j int) int { return a[pidx[i][j]] }
+				want := s.minSpanningForestWeight(w)
+				idk := ai % nIDMaps
+				for v := 0; v < nVariants; v++ {
+					b, wg := buildWeighted(&s, idk, v, w)
+					run(t, "und-span-frac", key+fmt.Sprintf("|a=%d", ai), idk, v, func(c *chk) {
+						spanChecks(c, b, wg, w, want, true, comps)
+					})
+					evals++
 				}
 			}
 			t.Count("weighted_graphs", int64(evals))
